@@ -25,6 +25,7 @@ func init() {
 		NotCovered: "layout (spacing/line breaks), command-style calls, comprehension/lambda bodies, and whether the parser's own precedence table matches the printer's assumption (C14 covers the table).",
 		Run:        runC22,
 		Controls: []Control{
+			{Name: "map-key-question-before-colon", File: f, Old: "\tcase *ast.KeyValueExpr:\n\t\tp.expr(beforeColon(x.Key))\n", New: "\tcase *ast.KeyValueExpr:\n\t\tp.expr(x.Key)\n", Expect: "question-before-colon/printer"},
 			{Name: "errwrap-default-ignores-context", File: f, Old: "\t\tif x.Default != nil && token.UnaryPrec < prec1 {", New: "\t\tif x.Default != nil && token.UnaryPrec < 0 {", Expect: "own-precedence/ErrWrapExpr"},
 			{Name: "errwrap-lowest", File: f, Old: "p.expr1(x.X, token.HighestPrec, depth)\n\t\tp.print(x.Tok)", New: "p.expr(x.X)\n\t\tp.print(x.Tok)", Expect: "operand-prec/ErrWrapExpr.X"},
 			{Name: "star-lowest", File: f, Old: "\t\t\t// no parenthesis needed\n\t\t\tp.print(token.MUL)\n\t\t\tp.expr1(x.X, prec, depth)", New: "\t\t\t// no parenthesis needed\n\t\t\tp.print(token.MUL)\n\t\t\tp.expr(x.X)", Expect: "operand-prec/StarExpr.X"},
@@ -399,14 +400,47 @@ func c22OwnPrecedence(c *core.Check, pk *packages.Package) {
 	c.Floor("own-precedence", 4)
 	// `a?` followed by `:`
 	handles := false
+	var recog types.Object
 	for _, f := range core.AllFuncDecls(pk) {
 		if f.Body == nil {
 			continue
 		}
 		txt := nows(nodeTextAll(f.Body))
-		if strings.Contains(txt, "token.QUESTION") && strings.Contains(txt, ".Default==nil") && strings.Contains(txt, "*ast.ErrWrapExpr") {
-			handles = true
+		if strings.Contains(txt, "token.QUESTION") && strings.Contains(txt, ".Default==nil") && strings.Contains(txt, "*ast.ErrWrapExpr") && f.Name.Name != "expr1" {
+			recog = info.Defs[f.Name]
 		}
 	}
-	c.Decide(handles, "question-before-colon", "printer", fd.Pos(), "some routine of the printer recognises an expression ending in a bare `?`", "nothing in package printer recognises an expression that ends in a bare `?` (an *ast.ErrWrapExpr with Tok QUESTION and no Default): where such an expression is followed by a `:` — a slice bound s[a?:b], a map key {a?: b}, a case expression — the two tokens read as the `?:` operator and the tree changes")
+	// the recogniser (or the wrapper that applies it) is used where an expression is followed by a colon: map keys (two
+	// print paths), slice bounds, comprehension keys, range expression bounds, case expressions
+	if recog != nil {
+		users := map[types.Object]bool{recog: true}
+		for _, f := range core.AllFuncDecls(pk) {
+			if f.Body == nil {
+				continue
+			}
+			ast.Inspect(f.Body, func(n ast.Node) bool {
+				if call, ok := n.(*ast.CallExpr); ok && calleeObj(info, call) == recog && info.Defs[f.Name] != recog {
+					if f.Recv == nil { // a plain wrapper such as beforeColon
+						users[info.Defs[f.Name]] = true
+					}
+				}
+				return true
+			})
+		}
+		nUse := 0
+		for _, f := range core.AllFuncDecls(pk) {
+			if f.Body == nil || users[info.Defs[f.Name]] {
+				continue
+			}
+			ast.Inspect(f.Body, func(n ast.Node) bool {
+				if call, ok := n.(*ast.CallExpr); ok && users[calleeObj(info, call)] {
+					nUse++
+				}
+				return true
+			})
+		}
+		c.Analysed("question_before_colon_sites", nUse)
+		handles = nUse >= 8 // map key (two print paths), slice bound, comprehension key, range First and Last, case list (test + wrap)
+	}
+	c.Decide(handles, "question-before-colon", "printer", fd.Pos(), "expressions ending in a bare `?` are parenthesized at the colon sites", "nothing in package printer recognises an expression that ends in a bare `?` (an *ast.ErrWrapExpr with Tok QUESTION and no Default): where such an expression is followed by a `:` — a slice bound s[a?:b], a map key {a?: b}, a case expression — the two tokens read as the `?:` operator and the tree changes")
 }
